@@ -1376,6 +1376,9 @@ class Interp(object):
                     return BoundMethod(fv, o)
             raise RaiseSig('AttributeError')
         if isinstance(o, ClassVal):
+            h = self.hooks.get('classattr:%s.%s' % (o.name, name))
+            if h is not None:
+                return h
             found = find_method(o.name, name)
             if found is not None:
                 kind, node, mod, cls = found
